@@ -193,7 +193,21 @@ func (fe *FnExec) localEnv(st *State, old *State) *Env {
 		if _, isParam := env.vars[n]; isParam {
 			continue
 		}
-		env.vars[n] = Binding{st.locals[a], a.Type().(*types.Pointer).Elem()}
+		v := st.locals[a]
+		if sc, ok := v.(Scalar); ok && len(sc.T.S) > 120 {
+			// name a large local value once, so that contract clauses speak about the
+			// same constant the code's own loads and stores were expressed with
+			if st.localNames == nil {
+				st.localNames = map[string]Term{}
+			}
+			nm, have := st.localNames[sc.T.S]
+			if !have {
+				nm = st.define("loc."+n, sc.T)
+				st.localNames[sc.T.S] = nm
+			}
+			v = Scalar{nm}
+		}
+		env.vars[n] = Binding{v, a.Type().(*types.Pointer).Elem()}
 	}
 	fe.bindOrdinalLocals(st, env)
 	return env
